@@ -24,6 +24,15 @@ Init == [i |-> 0, viol |-> {}, t |-> 0,
 IsCer(m) == m.cmd = "CE" /\ m.req
 IsCea(m) == m.cmd = "CE" /\ ~m.req
 Common(m) == (NodeAuth \cap ToSet(m.auth)) \cup (NodeAcct \cap ToSet(m.acct))
+\* what a CEA of the node carries besides its result: identity, addresses, vendor, product, application ids (judged on the
+\* content digest `x` of transmitted messages; model messages carry none)
+HasX(m) == "x" \in DOMAIN m
+CeaContentOk(m) == ~HasX(m) \/
+  /\ m.x.noh = 1 /\ m.x.orlm = MCfg.node.realm
+  /\ (MCfg.node.listen => m.x.ips = MCfg.node.ips)
+  /\ m.x.vid = MCfg.node.vendor /\ m.x.prod = MCfg.node.product
+  /\ ToSet(m.x.auth) = NodeAuth /\ Len(m.x.auth) = Cardinality(NodeAuth)
+  /\ ToSet(m.x.acct) = NodeAcct /\ Len(m.x.acct) = Cardinality(NodeAcct)
 Expect(m) == IF m.oh = "" THEN "any"
              ELSE IF m.oh \notin MPeers THEN "3010"
              ELSE IF Common(m) = {} /\ ~m.relay THEN "5010" ELSE "2001"
@@ -75,6 +84,10 @@ StepN(M, st) ==
           [] exp = "5010" -> (IF ~cea(5010) THEN {"cer_no_common_app_not_answered_5010"} ELSE {}) \cup
                              (IF CstOf(st.snap, c0) \in READY THEN {"no_common_app_ready"} ELSE {})
           [] OTHER -> {}
+      vContent == IF exp \in {"2001", "3010", "5010"}
+                  THEN {"cea_content_wrong" : j \in {k \in 1..Len(out) : out[k].ev = "tx" /\ out[k].c = c0 /\ IsCea(out[k].m) /\
+                                                                          Key(out[k].m) = Key(ms[ci]) /\ ~CeaContentOk(out[k].m)}}
+                  ELSE {}
       \* (d) outbound: ready only on 2001 CEA; any other result closes
       vCea == IF ai # 0 /\ inTime /\ ms[ai].rc # 2001 /\ ~closedNow(c0) THEN {"cea_rejected_not_closed"} ELSE {}
       vReady == {"ready_without_successful_exchange" : c \in {x \in CIds : M0.dir[x] # "" /\ CstOf(st.snap, x) \in READY /\ ~succNow(x)}}
@@ -89,7 +102,7 @@ StepN(M, st) ==
       early == {c \in CIds : M0.dir[c] = "out" /\ estNow(c) /\ ~M0.succ[c] /\ ~M0.dead[c] /\ closedNow(c) /\
                  M0.opeer[c] \in MPeers /\ st.snap.peers[M0.opeer[c]].reason = 51 /\ now - lr(c) <= to(c, FALSE)}
       sigs == {"non_ce_traffic_answered_before_ce" : j \in badTx} \cup {"app_saw_request_before_ce" : j \in badApp} \cup
-              vOutcome \cup vCea \cup vReady \cup {"ce_timeout_not_enforced" : c \in late} \cup {"ce_timeout_too_early" : c \in early}
+              vOutcome \cup vContent \cup vCea \cup vReady \cup {"ce_timeout_not_enforced" : c \in late} \cup {"ce_timeout_too_early" : c \in early}
       \* ---- state update
       M1 == [M0 EXCEPT !.viol = @ \cup {[sig |-> s, at |-> M0.i] : s \in sigs}, !.t = now]
       M2 == [M1 EXCEPT !.succ = [c \in CIds |-> succNow(c)],
